@@ -21,7 +21,9 @@ use std::process::Command;
 
 const ROWS_PER_LINE: usize = 256;
 /// quick-tier binaries (the thorough tier takes every `c04_*` binary of progs/)
-const QUICK_PROGS: &[&str] = &["c04_gen__1.89__o0", "c04_gen__stable__o1", "c04_inl__nightly__o1", "c04_inl__1.89__o0__d5", "c04_c__gcc"];
+/// (`c04_mu__*`: one source file spread over several compilation units — an rlib's generic/#[inline] code instantiated in the
+/// binary crate, the binary crate split into 16 codegen units)
+const QUICK_PROGS: &[&str] = &["c04_gen__1.89__o0", "c04_gen__stable__o1", "c04_inl__nightly__o1", "c04_c__gcc", "c04_mu__1.89__o0__d5", "c04_mu__stable__o1"];
 
 // ------------------------------------------------------------------------------------------------
 // independent decoder: llvm-dwarfdump / objdump text
@@ -43,6 +45,14 @@ struct Oracle {
     text_lo: u64,
     /// (start, end, table, seq) of every sequence whose start is at or above text_lo
     live_seqs: Vec<(u64, u64, usize, usize)>,
+    /// root of the default toolchain (`rustup default` + `rustup which rustc`): where `/rustc/<hash>/` is remapped to
+    std_root: Option<PathBuf>,
+}
+fn default_toolchain_root() -> Option<PathBuf> {
+    let d = run_tool("rustup", &["default"])?;
+    let name = d.split_whitespace().next()?.to_string();
+    let w = run_tool("rustup", &["which", "--toolchain", &name, "rustc"])?;
+    Some(PathBuf::from(w.trim()).parent()?.parent()?.to_path_buf())
 }
 
 fn tool(names: &[&str]) -> Option<String> {
@@ -176,18 +186,23 @@ impl Oracle {
         }
         live_seqs.sort_unstable();
         let sub_by_off = subs.iter().enumerate().map(|(i, s)| (s.off, i)).collect();
-        Some(Oracle { tables, subs, sub_by_off, die_name, insns, text_lo, live_seqs })
+        Some(Oracle { tables, subs, sub_by_off, die_name, insns, text_lo, live_seqs, std_root: default_toolchain_root() })
     }
     /// absolute path of file `idx` of a table, the DWARF way (comp_dir / dir / name)
     fn file_path(&self, ti: usize, idx: usize) -> PathBuf {
         self.tables[ti].paths.get(&idx).cloned().unwrap_or_else(|| PathBuf::from("<no-such-file>"))
     }
     /// does the path shown by the debugger denote the file the line table names? `/rustc/<hash>/..` paths are
-    /// remapped by the debugger to the local standard-library sources: compare what follows the hash.
-    fn paths_agree(shown: &Path, want: &Path) -> bool {
+    /// remapped by the debugger to the standard-library sources of the DEFAULT toolchain (`std_root`, asked from rustup
+    /// here): `<root>/lib/rustlib/src/rust/<what follows the hash>`. Exact equality otherwise — a unit that names the
+    /// same source through another toolchain's directory names, for the debugger's file index, ANOTHER file.
+    fn paths_agree(&self, shown: &Path, want: &Path) -> bool {
         if want.starts_with("/rustc/") {
             let tail: PathBuf = want.iter().skip(3).collect();
-            return shown == want || shown.ends_with(&tail);
+            return match &self.std_root {
+                Some(root) => shown == want || shown == root.join("lib/rustlib/src/rust").join(&tail),
+                None => shown == want || shown.ends_with(&tail),
+            };
         }
         shown == want
     }
@@ -239,14 +254,17 @@ impl Oracle {
     }
     /// is_stmt rows (non end_sequence) of `path:line` in live sequences: (addr, col, pe)
     fn stmt_rows(&self, path: &Path, line: u64) -> Vec<(u64, u64, bool)> {
+        self.line_rows(path, line).into_iter().filter(|(_, r, live)| *live && !r.es).map(|(_, r, _)| (r.addr, r.col, r.pe)).collect()
+    }
+    /// ALL is_stmt rows of `path:line`, whatever their sequence: (line table, row, the row's sequence is live code)
+    fn line_rows(&self, path: &Path, line: u64) -> Vec<(usize, ORow, bool)> {
         let mut v = vec![];
         for (ti, t) in self.tables.iter().enumerate() {
-            let _ = ti;
-            let fidx: Vec<usize> = t.paths.iter().filter(|(_, p)| Oracle::paths_agree(path, p)).map(|(i, _)| *i).collect();
+            let fidx: Vec<usize> = t.paths.iter().filter(|(_, p)| self.paths_agree(path, p)).map(|(i, _)| *i).collect();
             if fidx.is_empty() { continue; }
             for s in &t.seqs {
-                if s[0].addr < self.text_lo { continue; }
-                for r in s { if !r.es && r.stmt && r.line == line && fidx.contains(&r.file) { v.push((r.addr, r.col, r.pe)); } }
+                let live = s[0].addr >= self.text_lo;
+                for r in s { if r.stmt && r.line == line && fidx.contains(&r.file) { v.push((ti, r.clone(), live)); } }
             }
         }
         v
@@ -405,9 +423,51 @@ fn gen_session(prog_name: &str, prog: &Path, oracle: &Oracle, rng: &mut Rng, n: 
     }
     for (&p, &maxl) in &user_files {
         for l in 0..=maxl + 2 { req.push(format!("C04 line {p} {l}")); w.count("gen.user_lines", 1); }
+        let in_units = dump.iter().filter(|u| u.rows.iter().any(|r| u.files.get(r.file_index as usize).map(|f| ids.path[f]) == Some(p))).count();
+        if in_units >= 2 { w.count("gen.multi_unit_line_queries.user", maxl + 3); }
         req.push(format!("C04 lrange {p} 0 {}", maxl + 1));
         for _ in 0..6 { let a = rng.below(maxl + 2); let b = rng.below(maxl + 2); req.push(format!("C04 lrange {p} {a} {b}")); }
     }
+    // --- source files whose rows are spread over SEVERAL units (generic / #[inline] code of a library instantiated in
+    // another crate, one crate split into several codegen units, std sources): the `line`/`line + 1` decision of a line
+    // breakpoint must be taken over all of them. Per file: which unit has an is_stmt row of which line (live code only).
+    let mut per_file: BTreeMap<usize, BTreeMap<usize, BTreeSet<u64>>> = BTreeMap::new();
+    for u in &dump {
+        for r in &u.rows {
+            if !r.is_stmt || r.end_sequence || r.address < oracle.text_lo { continue; }
+            let Some(p) = u.files.get(r.file_index as usize) else { continue };
+            per_file.entry(ids.path[p]).or_default().entry(u.idx).or_default().insert(r.line);
+        }
+    }
+    // classes of a line L of a multi-unit file (a line can be in several): its rows are in ONE unit / in SEVERAL units;
+    // some unit lacks L but has L+1 (the successor's rows live elsewhere); L-1 has no code in any unit (query L-1: global fallback)
+    let mut other_succ: Vec<(usize, u64)> = vec![];
+    let mut other_rest: Vec<(usize, u64)> = vec![];
+    for (&p, units) in per_file.iter().filter(|(_, m)| m.len() >= 2) {
+        let user = user_files.contains_key(&p);
+        let tag = if user { "user" } else { "other" };
+        w.count(&format!("gen.multi_unit_files.{tag}"), 1);
+        w.count(&format!("gen.multi_unit_files.{tag}.units_of_the_file.{}", match units.len() { 2 => "2", 3 => "3", 4..=7 => "4-7", _ => "8+" }), 1);
+        let all: BTreeSet<u64> = units.values().flatten().copied().collect();
+        for &l in &all {
+            let k = units.values().filter(|s| s.contains(&l)).count();
+            let succ_elsewhere = units.values().any(|s| !s.contains(&l) && s.contains(&(l + 1)));
+            let pred_empty = l > 0 && !all.contains(&(l - 1));
+            w.count(&format!("gen.multi_unit_lines.{tag}.{}", if k == 1 { "rows_in_one_unit" } else { "rows_in_several_units" }), 1);
+            if succ_elsewhere { w.count(&format!("gen.multi_unit_lines.{tag}.a_unit_without_the_line_has_the_next_line"), 1); }
+            if pred_empty { w.count(&format!("gen.multi_unit_lines.{tag}.previous_line_without_code"), 1); }
+            if user { continue; }   // every line of the user files is queried above
+            if succ_elsewhere { other_succ.push((p, l)); } else { other_rest.push((p, l)); }
+            if pred_empty { other_rest.push((p, l - 1)); }
+        }
+    }
+    let mut take = |v: &mut Vec<(usize, u64)>, cap: usize, rng: &mut Rng, what: &str, req: &mut Vec<String>, w: &mut WOut| {
+        // all of them when they fit, a seeded sample otherwise
+        if v.len() > cap { for i in 0..cap { let j = i + rng.below((v.len() - i) as u64) as usize; v.swap(i, j); } v.truncate(cap); w.count(&format!("gen.multi_unit_line_queries.{what}.sampled"), 1); }
+        for (p, l) in v.iter() { req.push(format!("C04 line {p} {l}")); w.count(&format!("gen.multi_unit_line_queries.{what}"), 1); }
+    };
+    take(&mut other_succ, 2 * n as usize, rng, "other.a_unit_without_the_line_has_the_next_line", &mut req, &mut w);
+    take(&mut other_rest, n as usize / 2, rng, "other.rest", &mut req, &mut w);
     // --- sampled (file, line) of the other units: a line with code, the line before it
     if !others.is_empty() {
         for _ in 0..n / 4 {
@@ -508,14 +568,14 @@ impl<'a> Sess<'a> {
                         self.w.count("oracle.pc.via_resolve_function_at_pc", 1);
                     }
                 }
-                let ok = matches!(&shown, Some((f, l, a)) if *l == want.line && *a == want.addr && Oracle::paths_agree(f, &want_path));
+                let ok = matches!(&shown, Some((f, l, a)) if *l == want.line && *a == want.addr && o.paths_agree(f, &want_path));
                 if !ok {
                     let es = got.as_ref().map(|p| p.end_sequence).unwrap_or(false);
                     let key = match &shown {
                         None => "pc-to-line-no-answer",
                         Some(_) if es => "pc-to-line-returns-end-sequence-row",
                         Some((_, _, a)) if *a == want.addr => "pc-to-line-picks-other-row-at-same-address",
-                        Some((f, l, _)) if *l == want.line && !Oracle::paths_agree(f, &want_path) => "pc-to-line-wrong-file-path",
+                        Some((f, l, _)) if *l == want.line && !o.paths_agree(f, &want_path) => "pc-to-line-wrong-file-path",
                         _ => "pc-to-line-wrong-row",
                     };
                     self.w.fail(key, format!("{}: pc {pc:#x}: shown {:?}, line table says {}:{} (row at {:#x})", self.prog, shown, want_path.display(), want.line, want.addr), self.replay(line));
@@ -621,7 +681,25 @@ impl<'a> Sess<'a> {
         for (s, rows) in &by_sub {
             let n = addrs.iter().filter(|a| o.subs[*s].ranges.iter().any(|r| r.0 <= **a && **a < r.1) && o.sub_of(**a) == Ok(Some(*s))).count();
             if n == 0 {
-                let key = "line-breakpoint-misses-function-or-instantiation";
+                // the recorded finding is the class "the function's rows of the line differ in column / flags from another row of the
+                // line in the SAME unit" (the sibling rule drops them); decided here on llvm-dwarfdump's rows only. A function none of
+                // whose rows has such a differing sibling in its own line table must get a breakpoint: every unit contributes.
+                let all_rows = o.line_rows(&path, which);
+                let has_differing_sibling = |a: u64| all_rows.iter().filter(|(_, r, live)| *live && !r.es && r.addr == a).all(|(ti, r, _)|
+                    all_rows.iter().any(|(tj, x, _)| tj == ti && (x.col, x.pe, x.eb, x.es) != (r.col, r.pe, r.eb, false)));
+                // a third class: the requested line has rows ONLY in sequences of discarded functions (addresses below the first
+                // instruction): the implementation takes those and never looks at the next line, whose functions get nothing
+                let dead_only = which == l + 1 && o.line_rows(&path, l).iter().any(|(_, _, live)| !*live);
+                // a fourth class: the function's row carries prologue_end and the NEXT row of the same file in its line table (by
+                // address) is another is_stmt prologue_end row of the line: the look-ahead "prefer a prologue_end sibling" jumps to
+                // that one although the row it starts from is a prologue_end row itself, and never comes back
+                let pe_followed_by_pe = |a: u64| all_rows.iter().filter(|(_, r, live)| *live && !r.es && r.addr == a).all(|(ti, r, _)| r.pe && {
+                    let next = o.tables[*ti].seqs.iter().flatten().filter(|x| x.file == r.file && x.addr > r.addr).min_by_key(|x| x.addr);
+                    matches!(next, Some(x) if x.stmt && x.pe && !x.es && x.line == r.line) });
+                let key = if dead_only { "line-breakpoint-not-moved-to-next-line-when-line-only-in-discarded-code" }
+                    else if rows.iter().all(|r| has_differing_sibling(r.0)) { "line-breakpoint-misses-function-or-instantiation" }
+                    else if rows.iter().all(|r| has_differing_sibling(r.0) || pe_followed_by_pe(r.0)) { "line-breakpoint-skips-prologue-end-row-followed-by-another" }
+                    else { "line-breakpoint-misses-function-without-differing-row-in-its-unit" };
                 self.w.fail(key, format!("{}: {tpl}:{l}: function {:?} (DIE {:#x}) has statements of line {which} at {:x?} but gets no breakpoint (breakpoints: {addrs:x?})",
                     self.prog, o.name_of(o.subs[*s].off), o.subs[*s].off, rows.iter().map(|r| r.0).collect::<Vec<_>>()), self.replay(line));
             } else if n > 1 {
@@ -676,7 +754,11 @@ impl<'a> Sess<'a> {
                 (None, _) => "fn-breakpoint-not-resolved",
                 (Some(g), None) if !inside(g) => "fn-breakpoint-without-prologue-end-walks-out-of-function",
                 (Some(_), None) => "fn-breakpoint-not-at-an-instruction-row",
-                (Some(g), Some(_)) if !inside(g) => "fn-breakpoint-outside-function",
+                // a function breakpoint must lie inside the function's ranges. The recorded finding `fn-breakpoint-outside-function`
+                // is the class "an end_sequence row of another sequence sits at the function's low_pc"; outside that class
+                // (decided on llvm-dwarfdump's rows only) the same failure is a different, unrecorded one
+                (Some(g), Some(_)) if !inside(g) && o.tables.iter().any(|t| t.seqs.iter().any(|q| q.last().map(|r| r.addr) == Some(lo))) => "fn-breakpoint-outside-function",
+                (Some(g), Some(_)) if !inside(g) => "fn-breakpoint-outside-function-no-end-sequence-row-at-low-pc",
                 (Some(_), Some(_)) => "fn-breakpoint-not-at-first-prologue-end",
             };
             self.w.fail(key, format!("{}: function {:?} (DIE {:#x}, ranges {:x?}): breakpoint address {:x?}, first prologue_end row inside the function: {:x?}", self.prog, name, sub.off, sub.ranges, got, first_pe), self.replay(line));
@@ -723,6 +805,9 @@ fn exec_session(prog_name: &str, prog: &Path, oracle: Option<&Oracle>, lines: &[
     let mut s = Sess { dbg, prog: prog_name.to_string(), dump, ids, dump_set, oracle, started: None, w };
     s.check_dump_against_decoder();
     let oc = overflow_checks_on() as u8;
+    // a session written by hand (corpus) carries no dump lines: the live dump is inserted after its `new` line, so that the
+    // model gets the tables (generated sessions carry the dump of generation time, checked line by line: `ok` / `stale`)
+    let bare = !lines.iter().any(|l| l.starts_with("C04 unit "));
     for l in lines {
         let t: Vec<&str> = l.split(' ').collect();
         let ans = match t.as_slice() {
@@ -730,6 +815,10 @@ fn exec_session(prog_name: &str, prog: &Path, oracle: Option<&Oracle>, lines: &[
             _ => s.exec_line(l),
         };
         s.w.pairs.push((l.clone(), ans));
+        if bare && l.starts_with("C04 new ") {
+            for d in dump_lines(&s.dump, &s.ids) { s.w.pairs.push((d, "ok".into())); }
+            s.w.count("exec.dump_inserted_into_bare_session", 1);
+        }
     }
     let Sess { dbg, w, .. } = s;
     let _ = guarded(move || drop(dbg));   // the destructor may trip a debug assertion when the debuggee is already gone
@@ -745,7 +834,7 @@ fn ensure_progs() {
 }
 fn prog_list(thorough: bool) -> Vec<String> {
     if !thorough { return QUICK_PROGS.iter().map(|s| s.to_string()).collect(); }
-    let mut v: Vec<String> = std::fs::read_dir(root().join("progs")).map(|d| d.filter_map(|e| e.ok()?.file_name().into_string().ok()).filter(|n| n.starts_with("c04_")).collect()).unwrap_or_default();
+    let mut v: Vec<String> = std::fs::read_dir(root().join("progs")).map(|d| d.filter_map(|e| e.ok()?.file_name().into_string().ok()).filter(|n| n.starts_with("c04_") && root().join("progs").join(n).is_file()).collect()).unwrap_or_default();
     v.sort();
     v
 }
